@@ -146,7 +146,7 @@ static int visit(void * e, void * p)
         el->n.n = el->n2.n = &poisonv[el - pool];
         el->n.p = el->n2.p = &poisonv[el - pool];
     }
-    return nvisited++ == stop_at ? 7 : 0;
+    return nvisited++ == stop_at ? h_stop_value(stop_at) : 0;
 }
 
 static void clr(void * e, void * p)
